@@ -420,6 +420,23 @@ static void doApi(const Json::Value& sc, Json::Value& out) {
           r.map = singleton ? Oomd::getStats() : st->getAll();
           r.res = stamp();
           r.hasMap = true;
+        } else if (k == "scget") {
+          // the real client (`oomd --dump-stats`): a successful call must deliver the server's counters like getAll()
+          r.inv = stamp();
+          StatsClient c(path);
+          auto m = c.getStats();
+          r.res = stamp();
+          if (m) {
+            r.map = *m;
+            r.hasMap = true;
+          } else {
+            r.ret = -1;
+          }
+        } else if (k == "screset") {
+          r.inv = stamp();
+          StatsClient c(path);
+          r.ret = c.resetStats();
+          r.res = stamp();
         } else if (k == "cget" || k == "creset") {
           r.inv = stamp();
           r.sess = runSession(path, k == "cget" ? gsess : rsess);
